@@ -191,7 +191,7 @@ theorem cross_copy_eq_same_copy_aux (fx : Fixes) (q : Quirks) (c : Cfg) (ss : St
     ∧ writeOutcome (rstep fx q c ss (.base (.copy sb sk svid db dk rm rt o))).2.out
       = writeOutcome (.base (step q s (.copy sb sk svid db dk rm rt o)).2) := by
   have hne' : (storageOf c sb == storageOf c db) = false := by simpa using hne
-  simp only [rstep, route, routeBase, hne', crossCopy, readSource, hsrc, step, findBucket_clock]
+  simp only [rstep, route, routeBase, hne', crossCopy, readSource, hsrc, step, stepT, findBucket_clock]
   cases hfb : findBucket s sb with
   | none => simp [hdst, flatten_clock, writeOutcome]
   | some sbk =>
